@@ -92,9 +92,18 @@ def check_projections(ctx):
     ctx.floor("R9.2", "branches on is_predict", n, 5)
     # columns of the linear expectation matrix are in arm-list order
     fv = prog.method("_Linear", "_vectorized_predict_context")
-    src = " ".join(ast.unparse(fv.node).split())
-    ok = "arms = deepcopy(self.arms)" in src and "arms = np.array(arms)" in src and \
-        "np.array([self.arm_to_model[arm].predict(nonrandom_context) for arm in arms]).T" in src
+    from .pattern import find
+    from .c15 import _inline
+    # the label array that is indexed by argmax and the loop that builds the columns use the same arm sequence
+    stk, sb = find("np.array([self.arm_to_model[_A_].predict(_EC_) for _A_ in _ARMS_]).T", fv.node)
+    sel, lb = find("_ARMS_[np.argmax(_EM_, axis=1)]", fv.node, {"_ARMS_": sb["_ARMS_"]} if sb else None)
+    ok = stk is not None and sel is not None
+    if ok:
+        arr = ast.unparse(_inline(fv.node, ast.Name(id=sb["_ARMS_"], ctx=ast.Load()), stop=()))
+        defs = [ast.unparse(n.value) for n in ast.walk(fv.node) if isinstance(n, ast.Assign)
+                and ast.unparse(n.targets[0]) == sb["_ARMS_"]]
+        ok = defs in (["deepcopy(self.arms)", "np.array(%s)" % sb["_ARMS_"]], ["np.array(self.arms)"],
+                      ["np.array(deepcopy(self.arms))"], ["np.asarray(self.arms)"])
     ctx.check(ok, "R9.2", "_Linear: expectation columns follow the arm list order used for both projections", fv.node,
               fv, construct="def _Linear._vectorized_predict_context (column order)")
     # the flag is not read before the seeds are drawn
@@ -102,7 +111,7 @@ def check_projections(ctx):
     seeds_line = None
     first_use = None
     for node in ast.walk(pp.node):
-        if isinstance(node, ast.Assign) and ast.unparse(node.targets[0]) == "seeds":
+        if isinstance(node, ast.Assign) and ast.unparse(node.value).startswith("self.rng."):
             seeds_line = node.lineno
         if isinstance(node, ast.Name) and node.id == "is_predict" and isinstance(node.ctx, ast.Load):
             first_use = node.lineno if first_use is None else min(first_use, node.lineno)
